@@ -143,6 +143,14 @@ impl Config for C {
         }
     }
 
+    fn rot_probe(&self, bytes: &[u8]) -> Option<Option<(Option<f32>, String)>> {
+        guarded(|| match ais::messages::parse(bytes) {
+            Ok(ais::messages::AisMessage::PositionReport(p)) => Some(p.rate_of_turn.map(|r| (r.rate(), format!("{:?}", r.direction())))),
+            _ => None,
+        })
+        .unwrap_or(None)
+    }
+
     fn canon_history(&self, lines: &[(Vec<u8>, bool)]) -> Vec<String> {
         let mut p = ais::AisParser::new();
         lines.iter().map(|(l, d)| guarded(|| canon::canon_line(&mut p, l, *d)).unwrap_or_else(|_| "PANIC".into())).collect()
